@@ -29,6 +29,7 @@ from .common import cps
 
 BASIC = ('Y', 'MON', 'W', 'D', 'H', 'M', 'S')
 SECS = {'Y': 31536000, 'MON': 2592000, 'W': 604800, 'D': 86400, 'H': 3600, 'M': 60, 'S': 1}
+SECS_WE = dict(SECS, WE=172800)   # a weekend (two-letter TIMEX unit `WE`) is two days
 # suffix phrases per language family ("and a half"); whether one matches is decided by the culture's own suffix_and_regex
 SUFFIXES = [' and a half', ' and a quarter', ' and half', ' y medio', ' y media', ' y cuarto', ' et demi', ' et demie',
             ' e meia', ' e meio', ' e mezzo', ' e mezza', ' und ein halb', ' en een half']
@@ -66,7 +67,7 @@ class Culture:
         self.extra = ';'.join('%s|%s|%s' % (cps(k), cps(um[k]), uv[k] if k in uv else 'none') for k in extra) or 'none'
         dn = cfg.double_numbers or {}
         self.dn = ';'.join('%s|%d|%d' % ((cps(k),) + float(v).as_integer_ratio()) for k, v in dn.items()) or 'none'
-        self.cfg3 = '%s\t%s\t%s' % (cps(cul), self.extra, self.dn)
+        self.variant = '00'
         self.ok = all(isinstance(v, int) and v >= 0 for v in uv.values()) and all(float(v) >= 0 for v in dn.values())
 
 
@@ -107,6 +108,35 @@ def grp(m, name):
     """RegExpUtility.get_group: '' when the group is absent or did not take part"""
     from recognizers_text.utilities import RegExpUtility
     return RegExpUtility.get_group(m, name)
+
+
+def cfg3(C):
+    return '%s/%s\t%s\t%s' % (cps(C.cul), C.variant, C.extra, C.dn)
+
+
+def probe_variant(ctx, CS):
+    """Which variant of the two repaired computations does the tree follow?  Fixed probe inputs on the English parser:
+    '3 decades' (TIMEX built with unit[0] -> 'P31', with _duration_timex -> 'P30Y'), '1.15 days' (float product ->
+    99359.99999999999, exact product -> 99360).  The model is asked for the variant the tree shows; anything else is a break."""
+    en = [C for C in CS if C.cul == 'en-us']
+    u = v = '0'
+    if en:
+        dp = en[0].dp
+        a = guarded(lambda: dp.parse_number_space_unit('3 decades').timex)
+        b = guarded(lambda: repr(dp.parse_number_space_unit('1.15 days').future_value))
+        if a == 'P30Y':
+            u = '1'
+        elif a != 'P31':
+            ctx.report('correspondence', 'durations-variant-probe', "parse_number_space_unit('3 decades').timex = %r: neither variant" % (a,),
+                       failing_input={'culture': 'en-us', 'query': '3 decades', 'timex': a})
+        if b == '99360':
+            v = '1'
+        elif b != '99359.99999999999':
+            ctx.report('correspondence', 'durations-variant-probe', "parse_number_space_unit('1.15 days').future_value = %s: neither variant" % (b,),
+                       failing_input={'culture': 'en-us', 'query': '1.15 days', 'value': b})
+    for C in CS:
+        C.variant = u + v
+    ctx.extra['duration_variant'] = {'unit_code_fix': u == '1', 'value_fix': v == '1'}
 
 
 class FrontEnd:
@@ -170,7 +200,7 @@ class FrontEnd:
 def amount_of(timex):
     """'P[T]<amount><letter>' -> (has_T, Fraction amount, letter) or None"""
     import re
-    m = re.fullmatch(r'P(T?)(-?\d+(?:\.\d+)?(?:e[+-]\d+)?)([A-Z])', timex)
+    m = re.fullmatch(r'P(T?)(-?\d+(?:\.\d+)?(?:e[+-]\d+)?)([A-Z]+)', timex)
     if not m:
         return None
     return (m.group(1) == 'T', Fraction(Decimal(m.group(2))), m.group(3))
@@ -252,6 +282,11 @@ def unit(ctx):
         if 0 < x < 1e290:
             add('du.mul\t0\t%d\t%d\t%d' % (a, b, k),
                 guarded(lambda: str(QueryProcessor.float_or_int(QueryProcessor.float_or_int(x) * k))), 'float_or_int(%r * %d)' % (x, k))
+
+            def exact():
+                n = QueryProcessor.float_or_int(x)
+                return str(QueryProcessor.float_or_int(float(Fraction(repr(n)) * k) if isinstance(n, float) else n * k))
+            add('du.mulx\t0\t%d\t%d\t%d' % (a, b, k), guarded(exact), 'float_or_int(float(Fraction(repr(%r)) * %d))' % (x, k))
     for _ in range(3000 if ctx.thorough else 500):
         c = r.randint(0, 10 ** r.randint(1, 17))
         e = r.randint(-20, 8) if r.random() < 0.9 else r.randint(-340, 300)
@@ -260,6 +295,7 @@ def unit(ctx):
 
     # ------------------------------------------------------------- the parser paths, culture by culture
     CS = [C for C in cultures()]
+    probe_variant(ctx, CS)
     ctx.extra['duration_cultures'] = [C.cul for C in CS]
     dur_specs = spec_texts({('Duration', 'Parser'), ('Duration', 'Extractor')})
     set_specs = spec_texts({('Set', 'Parser'), ('Set', 'Extractor')})
@@ -290,24 +326,24 @@ def unit(ctx):
                     return show(x)
                 except (KeyError, IndexError, ValueError, OverflowError, TypeError):
                     return 'err:Other'
-            add('du.space\t%s\t%d\t%s\t%s\t%s' % (C.cfg3, F.ers_count, F.dec, opt(F.fu), opt(F.fu_suf)),
+            add('du.space\t%s\t%d\t%s\t%s\t%s' % (cfg3(C), F.ers_count, F.dec, opt(F.fu), opt(F.fu_suf)),
                 call('space', lambda: dp.parse_number_space_unit(s)), 'parse_number_space_unit ' + tag)
             cn, cu = ('none', 'none') if F.comb is None else (cps(F.comb[0]), cps(F.comb[1]))
-            add('du.comb\t%s\t%s\t%s\t%s' % (C.cfg3, cn, cu, opt(F.src_suf)),
+            add('du.comb\t%s\t%s\t%s\t%s' % (cfg3(C), cn, cu, opt(F.src_suf)),
                 call('comb', lambda: dp.parse_number_combined_unit(s)), 'parse_number_combined_unit ' + tag)
             ah, au = ('none', 'none') if F.an is None else (str(F.an[0]), cps(F.an[1]))
             if F.an_raises:
                 ctx.count('parse_an_unit: pattern without a `half` group (IndexError, not modelled) %s' % C.cul)
             else:
-                add('du.an\t%s\t%s\t%s\t%s' % (C.cfg3, ah, au, opt(F.src_suf)),
+                add('du.an\t%s\t%s\t%s\t%s' % (cfg3(C), ah, au, opt(F.src_suf)),
                     call('an', lambda: dp.parse_an_unit(s)), 'parse_an_unit ' + tag)
-            add('du.inexact\t%s\t%s' % (C.cfg3, opt(F.inexact)),
+            add('du.inexact\t%s\t%s' % (cfg3(C), opt(F.inexact)),
                 call('inexact', lambda: dp.parse_in_exact_number_unit(s)), 'parse_in_exact_number_unit ' + tag)
-            add('du.regex\t%s\t%s\t0' % (C.cfg3, opt(F.all_unit)),
+            add('du.regex\t%s\t%s\t0' % (cfg3(C), opt(F.all_unit)),
                 call('all', lambda: dp.get_result_from_regex(cfg.all_date_unit_regex, s, 1)), 'get_result_from_regex(all) ' + tag)
-            add('du.regex\t%s\t%s\t1' % (C.cfg3, opt(F.half_unit)),
+            add('du.regex\t%s\t%s\t1' % (cfg3(C), opt(F.half_unit)),
                 call('half', lambda: dp.get_result_from_regex(cfg.half_date_unit_regex, s, 0.5)), 'get_result_from_regex(half) ' + tag)
-            add('du.regex\t%s\t%s\t0' % (C.cfg3, opt(F.fu_whole)),
+            add('du.regex\t%s\t%s\t0' % (cfg3(C), opt(F.fu_whole)),
                 call('bare', lambda: dp.get_result_from_regex(cfg.followed_unit, s, 1)), 'get_result_from_regex(unit) ' + tag)
 
             def whole():
@@ -317,7 +353,7 @@ def unit(ctx):
                 v = pr.value
                 return '%s\t%s' % (cps(pr.timex_str), v.future_resolution.get('duration', 'none') if v is not None and v.success else 'none')
             if not F.an_raises:
-                add('du.parse\t%s\t%s' % (C.cfg3, F.parse_fields()), guarded(whole), 'parse ' + tag)
+                add('du.parse\t%s\t%s' % (cfg3(C), F.parse_fields()), guarded(whole), 'parse ' + tag)
             for name, x in res.items():
                 if x.success:
                     ctx.nontriv(('duration', C.cul, name, s))
@@ -367,10 +403,13 @@ def judge(ctx, oracle):
             # decade / fortnight / weekend / ...: whatever the TIMEX says must still denote the value
             sig = 'duration-unit-code:%s' % code
             tcode = None if a is None else ('MON' if (a[2] == 'M' and not a[0]) else a[2])
-            if a is None or tcode not in SECS or a[0] != (tcode in ('H', 'M', 'S')):
+            if a is None or tcode not in SECS_WE or a[0] != (tcode in ('H', 'M', 'S')):
                 why = 'unit code %r: TIMEX %r is not P[T]<amount><U>' % (code, x.timex)
-            elif Fraction(Decimal(str(x.future_value))) != a[1] * SECS[tcode]:
-                why = 'unit code %r: TIMEX %r denotes %s s, the value is %r' % (code, x.timex, a[1] * SECS[tcode], x.future_value)
+            elif Fraction(Decimal(str(x.future_value))) != a[1] * SECS_WE[tcode]:
+                exact = a[1] * SECS_WE[tcode]
+                why = 'unit code %r: TIMEX %r denotes %s s, the value is %r' % (code, x.timex, exact, x.future_value)
+                if exact and abs(Fraction(Decimal(str(x.future_value))) - exact) < exact / 10 ** 9:
+                    sig = 'duration-value-float'   # the TIMEX is right, the value is off by float rounding only
         else:
             sig = 'duration-timex:%s:%s' % (C.cul, code)
             if a is None:
